@@ -199,9 +199,12 @@ def bounded(tier, seed):
                     failures.append({"inputs": {"tables": tabs, "path": path, "root": "", "iface": iface}, "violated": v})
                 elif len(samples) < 3 and len(path) > 3:
                     samples.append({"tables": tabs, "path": path, "iface": iface})
-        hosts_tables = [[r"a\.example", r"(www\.)?example", r".*"], [r"(www\.)?example", r"a\.example"], [r"a.*", r"ab"], []]
+        # (patterns with a top-level alternation, a trailing '$' and a leading '^' too: the WHOLE header must match)
+        hosts_tables = [[r"a\.example", r"(www\.)?example", r".*"], [r"(www\.)?example", r"a\.example"], [r"a.*", r"ab"], [],
+                        [r"a\.example|b\.example", r".*\.internal"], [r"^a\.example$", r"example|ab"]]
         for t in hosts_tables:
-            for host in (None, "", "a.example", "www.example", "example", "ab", "axexample", "a.example\n", "EXAMPLE"):
+            for host in (None, "", "a.example", "www.example", "example", "ab", "axexample", "a.example\n", "EXAMPLE",
+                         "a.example:8000", "a.example.evil", "a.example.internal", "b.example", "xb.example", "abc", "xexample"):
                 evals += 1
                 v = check_hosts(t, host, iface)
                 distinct.add((iface, str(t), host))
@@ -209,6 +212,6 @@ def bounded(tier, seed):
                     failures.append({"inputs": {"kind": "hosts", "table": t, "host": host, "iface": iface}, "violated": v})
     return {"evaluations": evals, "distinct_nontrivial": len(distinct), "failures": failures, "samples": samples,
             "rule": "mount tables of 1..3 prefixes from ['', '/a', '/a/b', '/ab', '/b'] in every order (3: sample in quick) x all "
-                    "paths over {/,a,b} up to length %d x initial root in {'', '/r'}; non-ASCII prefixes and paths; nested tables of depth 2-3; host tables x 9 "
+                    "paths over {/,a,b} up to length %d x initial root in {'', '/r'}; non-ASCII prefixes and paths; nested tables of depth 2-3; host tables (incl. top-level alternations) x 16 "
                     "Host values; both interfaces, against a reference written from the statement" % (4 if tier == "quick" else 6),
             "exhaustive": False}
